@@ -16,7 +16,7 @@ every non-ghost field (= equal after erasing the ghost fields, `ghostEqS_iff_era
 of the model maps related states to related states and returns the same result
 (`Pko.Lemmas.C10Ghost*`: `beforeWrite`, `apply`, `reconcilePhaseObject`, `reconcilePhase`,
 `teardownPhaseObject`, `teardownPhase`, the delegated-phase steps, `lockedWrite`, `setFinalizer`,
-`updateStatus`, `reconcilePhases`, `activePhases`, `revisionStep`, `deletionOrArchival`).
+`updateStatus`, `reconcilePhases`, `activePhasesCore`, `revisionStep`, `deletionOrArchival`).
 Headlines: `reconcile_ghost_independent`, `armed_pass_same`, `schedule_ghost_independent`
 (any schedule of ObjectSet and ObjectSetPhase controller passes).
 
